@@ -17,10 +17,11 @@ digest table `d`:
 Soundness: every entry of a successful walk was there before or is the entry of a reached,
 non-excluded file (key = its path with the first matching strip prefix removed, value = its digests
 for the requested algorithms).  Completeness: every reached, non-excluded file has an entry under
-that key, and nothing recorded before is lost.  (With symbolic links two reached files may share a
-key; then the later one replaces the earlier — which is why this is stated as soundness +
-completeness and not, as for symlink-free trees in `Walk.lean`, as an exact multiset.)
-The recorded finding F19 (`noStripSymlink`) is excluded by hypothesis.
+that key, and nothing recorded before is lost.  Uniqueness: on success all names are pairwise
+distinct — two reached files that would be recorded under one name (a file link, or a file behind a
+followed directory link, colliding with anything recorded earlier) are the error "not-unique",
+never a silent overwrite (repair of finding F19: the names of links are stripped and checked like
+those of regular files).
 -/
 
 namespace InToto.WalkProofs
@@ -37,89 +38,6 @@ inductive FileAtS (cfg : Cfg) : Str → Node → Str → List (Str × Str) → P
 
 /-! ### helper lemmas (association lists) -/
 
-theorem mem_amSet (m : ArtMap) (k : Str) (v : List (Str × Str)) (e : Str × List (Str × Str))
-    (h : e ∈ amSet m k v) : e ∈ m ∨ e = (k, v) := by
-  induction m with
-  | nil => simp only [amSet, List.mem_singleton] at h; exact Or.inr h
-  | cons x xs ih =>
-    obtain ⟨k', v'⟩ := x
-    simp only [amSet] at h
-    split at h
-    · rcases List.mem_cons.1 h with h | h
-      · exact Or.inr h
-      · exact Or.inl (List.mem_cons_of_mem _ h)
-    · rcases List.mem_cons.1 h with h | h
-      · exact Or.inl (h ▸ List.mem_cons_self)
-      · rcases ih h with h | h
-        · exact Or.inl (List.mem_cons_of_mem _ h)
-        · exact Or.inr h
-
-theorem lookup_amSet_self (m : ArtMap) (k : Str) (v : List (Str × Str)) :
-    (lookup k (amSet m k v)).isSome = true := by
-  induction m with
-  | nil => simp [amSet, lookup]
-  | cons x xs ih =>
-    obtain ⟨k', v'⟩ := x
-    simp only [amSet]
-    split
-    · simp [lookup]
-    · rename_i hne
-      simp only [lookup, if_neg hne]
-      exact ih
-
-theorem lookup_amSet_keep (m : ArtMap) (k : Str) (v : List (Str × Str)) (k' : Str)
-    (h : (lookup k' m).isSome = true) : (lookup k' (amSet m k v)).isSome = true := by
-  induction m with
-  | nil => simp [lookup] at h
-  | cons x xs ih =>
-    obtain ⟨k0, v0⟩ := x
-    simp only [amSet]
-    split
-    · rename_i heq
-      subst heq
-      simp only [lookup] at h ⊢
-      split
-      · rfl
-      · rename_i hne; rw [if_neg hne] at h; exact h
-    · simp only [lookup] at h ⊢
-      split
-      · rfl
-      · rename_i hne; rw [if_neg hne] at h; exact ih h
-
-theorem mem_foldl_amSet (sub acc : ArtMap) (e : Str × List (Str × Str))
-    (h : e ∈ sub.foldl (fun a e => amSet a e.1 e.2) acc) : e ∈ acc ∨ e ∈ sub := by
-  induction sub generalizing acc with
-  | nil => exact Or.inl h
-  | cons x xs ih =>
-    simp only [List.foldl_cons] at h
-    rcases ih _ h with h | h
-    · rcases mem_amSet _ _ _ _ h with h | h
-      · exact Or.inl h
-      · exact Or.inr (h ▸ List.mem_cons_self)
-    · exact Or.inr (List.mem_cons_of_mem _ h)
-
-theorem lookup_foldl_keep (sub acc : ArtMap) (k : Str) (h : (lookup k acc).isSome = true) :
-    (lookup k (sub.foldl (fun a e => amSet a e.1 e.2) acc)).isSome = true := by
-  induction sub generalizing acc with
-  | nil => exact h
-  | cons x xs ih =>
-    simp only [List.foldl_cons]
-    exact ih _ (lookup_amSet_keep _ _ _ _ h)
-
-theorem lookup_foldl_sub (sub acc : ArtMap) (k : Str) (h : (lookup k sub).isSome = true) :
-    (lookup k (sub.foldl (fun a e => amSet a e.1 e.2) acc)).isSome = true := by
-  induction sub generalizing acc with
-  | nil => simp [lookup] at h
-  | cons x xs ih =>
-    obtain ⟨k0, v0⟩ := x
-    simp only [List.foldl_cons]
-    simp only [lookup] at h
-    split at h
-    · rename_i heq
-      subst heq
-      exact lookup_foldl_keep _ _ _ (lookup_amSet_self _ _ _)
-    · exact ih _ h
-
 theorem lookup_append_keep {β} (l1 l2 : List (Str × β)) (k : Str) (h : (lookup k l1).isSome = true) :
     (lookup k (l1 ++ l2)).isSome = true := by
   induction l1 with
@@ -135,6 +53,17 @@ theorem lookup_append_self {β} (l1 : List (Str × β)) (k : Str) (v : β) :
     (lookup k (l1 ++ [(k, v)])).isSome = true := by
   induction l1 with
   | nil => simp [lookup]
+  | cons x xs ih =>
+    obtain ⟨k0, v0⟩ := x
+    simp only [List.cons_append, lookup]
+    split
+    · rfl
+    · exact ih
+
+theorem lookup_append_right {β} (l1 l2 : List (Str × β)) (k : Str) (h : (lookup k l2).isSome = true) :
+    (lookup k (l1 ++ l2)).isSome = true := by
+  induction l1 with
+  | nil => exact h
   | cons x xs ih =>
     obtain ⟨k0, v0⟩ := x
     simp only [List.cons_append, lookup]
@@ -185,8 +114,10 @@ theorem keeps_aux (cfg : Cfg) (fuel : Nat) :
         · simp only [Outcome.ok.injEq] at h; subst h; exact hk
         · split at h
           · cases h
-          · simp only [Outcome.ok.injEq] at h; subst h
-            exact lookup_amSet_keep _ _ _ _ hk
+          · split at h
+            · cases h
+            · simp only [Outcome.ok.injEq] at h; subst h
+              exact lookup_append_keep _ _ _ hk
       | symDir ch =>
         simp only [visit] at h
         split at h
@@ -194,8 +125,8 @@ theorem keeps_aux (cfg : Cfg) (fuel : Nat) :
         · split at h
           · simp only [Outcome.ok.injEq] at h; subst h; exact hk
           · split at h
-            · simp only [Outcome.ok.injEq] at h; subst h
-              exact lookup_foldl_keep _ _ _ hk
+            · rw [(mergeUnique_ok _ _ _ h).1]
+              exact lookup_append_keep _ _ _ hk
             · rename_i hne
               exact absurd h (hne m)
       | dangling =>
@@ -217,7 +148,7 @@ theorem keeps_aux (cfg : Cfg) (fuel : Nat) :
         · rename_i hne
           exact absurd h (hne m)
 
-theorem sym_aux (cfg : Cfg) (hq : cfg.noStripSymlink = false) (fuel : Nat) :
+theorem sym_aux (cfg : Cfg) (fuel : Nat) :
     (∀ path node acc m, visit cfg fuel path node acc = .ok m →
       (∀ e, e ∈ m → e ∈ acc ∨ RecS cfg path node e) ∧
       (∀ q d, FileAtS cfg path node q d → cfg.ignored q = false →
@@ -288,15 +219,18 @@ theorem sym_aux (cfg : Cfg) (hq : cfg.noStripSymlink = false) (fuel : Nat) :
           split at h
           · cases h
           · rename_i hh hho
-            simp only [Outcome.ok.injEq, hq, Bool.false_eq_true, if_false] at h; subst h
-            constructor
-            · intro e he
-              rcases mem_amSet _ _ _ _ he with he | he
-              · exact Or.inl he
-              · exact Or.inr ⟨path, d, hh, FileAtS.symFile path d, by simpa using hig, hho, he⟩
-            · intro q d' hf hi
-              cases hf
-              exact lookup_amSet_self _ _ _
+            split at h
+            · cases h
+            · simp only [Outcome.ok.injEq] at h; subst h
+              constructor
+              · intro e he
+                rcases List.mem_append.1 he with he | he
+                · exact Or.inl he
+                · simp only [List.mem_singleton] at he
+                  exact Or.inr ⟨path, d, hh, FileAtS.symFile path d, by simpa using hig, hho, he⟩
+              · intro q d' hf hi
+                cases hf
+                exact lookup_append_self _ _ _
       | symDir ch =>
         simp only [visit] at h
         split at h
@@ -324,11 +258,12 @@ theorem sym_aux (cfg : Cfg) (hq : cfg.noStripSymlink = false) (fuel : Nat) :
             have hip : cfg.ignored path = false := by simpa using hig
             split at h
             · rename_i sub hsub
-              simp only [Outcome.ok.injEq] at h; subst h
+              have hm := (mergeUnique_ok _ _ _ h).1
+              subst hm
               obtain ⟨h1, h2⟩ := ihc _ _ _ _ hsub
               constructor
               · intro e he
-                rcases mem_foldl_amSet _ _ _ he with he | he
+                rcases List.mem_append.1 he with he | he
                 · exact Or.inl he
                 · rcases h1 e he with he | ⟨n, c, hm, q, d, hh, hf, r1, r2, r3⟩
                   · simp at he
@@ -337,7 +272,7 @@ theorem sym_aux (cfg : Cfg) (hq : cfg.noStripSymlink = false) (fuel : Nat) :
               · intro q d hf hi
                 cases hf with
                 | behind _ n c _ _ _ _ _ hm hf' =>
-                  exact lookup_foldl_sub _ _ _ (h2 n c q d ((mem_sortChildren _ _).2 hm) hf' hi)
+                  exact lookup_append_right _ _ _ (h2 n c q d ((mem_sortChildren _ _).2 hm) hf' hi)
             · rename_i hne
               exact absurd h (hne m)
       | dangling =>
@@ -378,6 +313,184 @@ theorem sym_aux (cfg : Cfg) (hq : cfg.noStripSymlink = false) (fuel : Nat) :
         · rename_i hne
           exact absurd h (hne m)
 
+/-! ### exactness and uniqueness of names (every tree, symbolic links included) -/
+
+def RecSL (cfg : Cfg) (dir : Str) (l : List (Str × Node)) (e : Str × List (Str × Str)) : Prop :=
+  ∃ n c, (n, c) ∈ l ∧ RecS cfg (joinPath dir n) c e
+
+theorem recS_dir (cfg : Cfg) (p : Str) (ch : List (Str × Node)) (e) :
+    RecS cfg p (.dir ch) e ↔ RecSL cfg p ch e := by
+  constructor
+  · rintro ⟨q, d, hh, hf, h1, h2, h3⟩
+    cases hf with
+    | child _ n c _ _ _ hm hf' => exact ⟨n, c, hm, q, d, hh, hf', h1, h2, h3⟩
+  · rintro ⟨n, c, hm, q, d, hh, hf, h1, h2, h3⟩
+    exact ⟨q, d, hh, FileAtS.child p n c ch q d hm hf, h1, h2, h3⟩
+
+theorem recS_symDir (cfg : Cfg) (p : Str) (ch : List (Str × Node)) (e)
+    (hfd : cfg.followDirs = true) (hip : cfg.ignored p = false) :
+    RecS cfg p (.symDir ch) e ↔ RecSL cfg p ch e := by
+  constructor
+  · rintro ⟨q, d, hh, hf, h1, h2, h3⟩
+    cases hf with
+    | behind _ n c _ _ _ _ _ hm hf' => exact ⟨n, c, hm, q, d, hh, hf', h1, h2, h3⟩
+  · rintro ⟨n, c, hm, q, d, hh, hf, h1, h2, h3⟩
+    exact ⟨q, d, hh, FileAtS.behind p n c ch q d hfd hip hm hf, h1, h2, h3⟩
+
+theorem recSL_sort (cfg : Cfg) (p : Str) (ch : List (Str × Node)) (e) :
+    RecSL cfg p (sortChildren ch) e ↔ RecSL cfg p ch e := by
+  simp only [RecSL, mem_sortChildren]
+
+theorem recSL_nil (cfg : Cfg) (p : Str) (e) : ¬ RecSL cfg p [] e := by
+  rintro ⟨n, c, hm, _⟩; simp at hm
+
+theorem recSL_cons (cfg : Cfg) (p n : Str) (c : Node) (rest : List (Str × Node)) (e) :
+    RecSL cfg p ((n, c) :: rest) e ↔ RecS cfg (joinPath p n) c e ∨ RecSL cfg p rest e := by
+  constructor
+  · rintro ⟨n', c', hm, hr⟩
+    rcases List.mem_cons.1 hm with h | h
+    · cases h; exact Or.inl hr
+    · exact Or.inr ⟨n', c', h, hr⟩
+  · rintro (hr | ⟨n', c', hm, hr⟩)
+    · exact ⟨n, c, List.mem_cons_self, hr⟩
+    · exact ⟨n', c', List.mem_cons_of_mem _ hm, hr⟩
+
+/-- what a successful walk of ANY tree returns: the accumulator, extended by exactly the records of
+    the reached, non-excluded files, names pairwise distinct (`Spec`: see `Walk.lean`) -/
+theorem specS_aux (cfg : Cfg) (fuel : Nat) :
+    (∀ path node acc m, visit cfg fuel path node acc = .ok m → Spec acc m (RecS cfg path node)) ∧
+    (∀ dir l acc m, visitChildren cfg fuel dir l acc = .ok m → Spec acc m (RecSL cfg dir l)) := by
+  induction fuel with
+  | zero =>
+    constructor
+    · intro path node acc m h; simp [visit] at h
+    · intro dir l acc m h; simp [visitChildren] at h
+  | succ fuel ih =>
+    obtain ⟨ihv, ihc⟩ := ih
+    -- a leaf that records one entry (regular file or file link)
+    have leaf : ∀ (path : Str) (node : Node) (d : List (Str × Str)) (acc m : ArtMap),
+        FileAtS cfg path node path d → (∀ q d', FileAtS cfg path node q d' → q = path ∧ d' = d) →
+        (if cfg.ignored path = true then Outcome.ok acc else
+          match hashObj d cfg.algs with
+          | none => Outcome.err "unsupported-hash"
+          | some h => if (lookup (stripPath cfg.lstrip path) acc).isSome = true then Outcome.err "not-unique"
+                      else Outcome.ok (acc ++ [(stripPath cfg.lstrip path, h)])) = Outcome.ok m →
+        Spec acc m (RecS cfg path node) := by
+      intro path node d acc m hfa huniq h
+      split at h
+      · rename_i hig
+        simp only [Outcome.ok.injEq] at h
+        subst h
+        refine ⟨[], by simp, ?_, by simp⟩
+        intro e
+        simp only [List.not_mem_nil, false_iff]
+        rintro ⟨q, d', hh, hf, h1, _⟩
+        obtain ⟨rfl, _⟩ := huniq q d' hf
+        rw [hig] at h1; cases h1
+      · rename_i hig
+        split at h
+        · cases h
+        · rename_i hh hho
+          split at h
+          · cases h
+          · rename_i hl
+            simp only [Outcome.ok.injEq] at h
+            subst h
+            refine ⟨[(stripPath cfg.lstrip path, hh)], rfl, ?_, fun hn => nodup_append_fresh acc _ hh hl hn⟩
+            intro e
+            simp only [List.mem_singleton]
+            constructor
+            · intro he
+              exact ⟨path, d, hh, hfa, by simpa using hig, hho, he⟩
+            · rintro ⟨q, d', hh', hf, h1, h2, h3⟩
+              obtain ⟨rfl, rfl⟩ := huniq q d' hf
+              rw [hho] at h2; cases h2
+              exact h3
+    constructor
+    · intro path node acc m h
+      cases node with
+      | file d =>
+        refine leaf path _ d acc m (FileAtS.file path d) ?_ ?_
+        · intro q d' hf; cases hf; exact ⟨rfl, rfl⟩
+        · simp only [visit] at h; exact h
+      | symFile d =>
+        refine leaf path _ d acc m (FileAtS.symFile path d) ?_ ?_
+        · intro q d' hf; cases hf; exact ⟨rfl, rfl⟩
+        · simp only [visit] at h; exact h
+      | dir ch =>
+        have hc : visitChildren cfg fuel path (sortChildren ch) acc = .ok m := by
+          simp only [visit] at h
+          split at h <;> exact h
+        obtain ⟨ext, h1, h2, h3⟩ := ihc path (sortChildren ch) acc m hc
+        refine ⟨ext, h1, ?_, h3⟩
+        intro e
+        rw [h2, recSL_sort, recS_dir]
+      | symDir ch =>
+        have none_behind : (cfg.ignored path = true ∨ cfg.followDirs = false) →
+            Spec acc acc (RecS cfg path (.symDir ch)) := by
+          intro hoff
+          refine ⟨[], by simp, ?_, by simp⟩
+          intro e
+          simp only [List.not_mem_nil, false_iff]
+          rintro ⟨q, d', hh, hf, _⟩
+          cases hf with
+          | behind _ n c _ _ _ hfd hip hm hf' =>
+            rcases hoff with h | h
+            · rw [h] at hip; cases hip
+            · rw [h] at hfd; cases hfd
+        simp only [visit] at h
+        split at h
+        · rename_i hig
+          simp only [Outcome.ok.injEq] at h; subst h
+          exact none_behind (Or.inl hig)
+        · rename_i hig
+          split at h
+          · rename_i hnf
+            simp only [Outcome.ok.injEq] at h; subst h
+            exact none_behind (Or.inr (by simpa using hnf))
+          · rename_i hnf
+            have hfd : cfg.followDirs = true := by simpa using hnf
+            have hip : cfg.ignored path = false := by simpa using hig
+            split at h
+            · rename_i sub hsub
+              obtain ⟨hm, hnd⟩ := mergeUnique_ok _ _ _ h
+              obtain ⟨ext, h1, h2, _⟩ := ihc _ _ _ _ hsub
+              simp only [List.nil_append] at h1
+              subst h1
+              refine ⟨sub, hm, ?_, hnd⟩
+              intro e
+              rw [h2, recSL_sort, recS_symDir cfg path ch e hfd hip]
+            · rename_i hne
+              exact absurd h (hne m)
+      | dangling =>
+        simp only [visit] at h
+        split at h
+        · simp only [Outcome.ok.injEq] at h; subst h
+          refine ⟨[], by simp, ?_, by simp⟩
+          intro e
+          simp only [List.not_mem_nil, false_iff]
+          rintro ⟨q, d', hh, hf, _⟩
+          cases hf
+        · cases h
+    · intro dir l acc m h
+      cases l with
+      | nil =>
+        simp only [visitChildren, Outcome.ok.injEq] at h
+        subst h
+        exact ⟨[], by simp, fun e => by simp [recSL_nil], by simp⟩
+      | cons hd rest =>
+        obtain ⟨n, c⟩ := hd
+        simp only [visitChildren] at h
+        split at h
+        · rename_i acc1 hv
+          obtain ⟨ext1, a1, a2, a3⟩ := ihv _ _ _ _ hv
+          obtain ⟨ext2, b1, b2, b3⟩ := ihc _ _ _ _ h
+          refine ⟨ext1 ++ ext2, by rw [b1, a1, List.append_assoc], ?_, fun hn => b3 (a3 hn)⟩
+          intro e
+          rw [List.mem_append, a2, b2, recSL_cons]
+        · rename_i hne
+          exact absurd h (hne m)
+
 /-- on a symlink-free tree `FileAtS` is `FileAt` -/
 theorem fileAtS_of_symlinkFree (cfg : Cfg) (p : Str) (node : Node) (q : Str) (d : List (Str × Str))
     (hsf : symlinkFree node = true) : FileAtS cfg p node q d ↔ FileAt p node q d := by
@@ -398,18 +511,18 @@ theorem fileAtS_of_symlinkFree (cfg : Cfg) (p : Str) (node : Node) (q : Str) (d 
       exact FileAtS.child p n c ch q d hm (ih ((go_iff ch).1 hg (n, c) hm))
 
 /-- C13 (nothing invented, symbolic links included) -/
-theorem visit_sym_sound (cfg : Cfg) (hq : cfg.noStripSymlink = false) (fuel : Nat) (path : Str) (node : Node)
+theorem visit_sym_sound (cfg : Cfg) (fuel : Nat) (path : Str) (node : Node)
     (acc m : ArtMap) (h : visit cfg fuel path node acc = .ok m) (e : Str × List (Str × Str)) (he : e ∈ m) :
     e ∈ acc ∨ ∃ q d hh, FileAtS cfg path node q d ∧ cfg.ignored q = false ∧
       hashObj d cfg.algs = some hh ∧ e = (stripPath cfg.lstrip q, hh) := by
-  exact ((sym_aux cfg hq fuel).1 path node acc m h).1 e he
+  exact ((sym_aux cfg fuel).1 path node acc m h).1 e he
 
 /-- C13 (nothing missed, symbolic links included): every reached, non-excluded file has an entry -/
-theorem visit_sym_complete (cfg : Cfg) (hq : cfg.noStripSymlink = false) (fuel : Nat) (path : Str) (node : Node)
+theorem visit_sym_complete (cfg : Cfg) (fuel : Nat) (path : Str) (node : Node)
     (acc m : ArtMap) (h : visit cfg fuel path node acc = .ok m) (q : Str) (d : List (Str × Str))
     (hf : FileAtS cfg path node q d) (hi : cfg.ignored q = false) :
     (lookup (stripPath cfg.lstrip q) m).isSome = true := by
-  exact ((sym_aux cfg hq fuel).1 path node acc m h).2 q d hf hi
+  exact ((sym_aux cfg fuel).1 path node acc m h).2 q d hf hi
 
 /-- … and no key recorded before is lost -/
 theorem visit_sym_keeps_keys (cfg : Cfg) (fuel : Nat) (path : Str) (node : Node)
@@ -430,7 +543,7 @@ theorem symDir_not_followed (cfg : Cfg) (hf : cfg.followDirs = false) (fuel : Na
     · simp only [Bool.not_false, if_true, Outcome.ok.injEq] at h; exact h.symm
 
 /-- the same for a list of root paths -/
-theorem recordArtifacts_sym_sound (cfg : Cfg) (hq : cfg.noStripSymlink = false) (roots : List (Str × Option Node))
+theorem recordArtifacts_sym_sound (cfg : Cfg) (roots : List (Str × Option Node))
     (acc m : ArtMap) (h : recordArtifacts cfg roots acc = .ok m) (e : Str × List (Str × Str)) (he : e ∈ m) :
     e ∈ acc ∨ ∃ p n q d hh, (p, some n) ∈ roots ∧ FileAtS cfg p n q d ∧ cfg.ignored q = false ∧
       hashObj d cfg.algs = some hh ∧ e = (stripPath cfg.lstrip q, hh) := by
@@ -448,14 +561,14 @@ theorem recordArtifacts_sym_sound (cfg : Cfg) (hq : cfg.noStripSymlink = false) 
       split at h
       · rename_i acc1 hv
         rcases ih acc1 h with he1 | ⟨p', n', q, d, hh, hm, hr⟩
-        · rcases visit_sym_sound cfg hq _ p n acc acc1 hv e he1 with he0 | ⟨q, d, hh, hr⟩
+        · rcases visit_sym_sound cfg _ p n acc acc1 hv e he1 with he0 | ⟨q, d, hh, hr⟩
           · exact Or.inl he0
           · exact Or.inr ⟨p, n, q, d, hh, List.mem_cons_self, hr⟩
         · exact Or.inr ⟨p', n', q, d, hh, List.mem_cons_of_mem _ hm, hr⟩
       · rename_i hne
         exact absurd h (hne m)
 
-theorem recordArtifacts_sym_complete (cfg : Cfg) (hq : cfg.noStripSymlink = false) (roots : List (Str × Option Node))
+theorem recordArtifacts_sym_complete (cfg : Cfg) (roots : List (Str × Option Node))
     (acc m : ArtMap) (h : recordArtifacts cfg roots acc = .ok m) (p : Str) (n : Node) (hr : (p, some n) ∈ roots)
     (q : Str) (d : List (Str × Str)) (hf : FileAtS cfg p n q d) (hi : cfg.ignored q = false) :
     (lookup (stripPath cfg.lstrip q) m).isSome = true := by
@@ -491,10 +604,126 @@ theorem recordArtifacts_sym_complete (cfg : Cfg) (hq : cfg.noStripSymlink = fals
       · rename_i acc1 hv
         rcases List.mem_cons.1 hr with hr | hr
         · cases hr
-          exact keeps rest acc1 m h _ (visit_sym_complete cfg hq _ p n acc acc1 hv q d hf hi)
+          exact keeps rest acc1 m h _ (visit_sym_complete cfg _ p n acc acc1 hv q d hf hi)
         · exact ih acc1 h hr
       · rename_i hne
         exact absurd h (hne m)
+
+/-! ### one entry per name, exactly the reached files -/
+
+/-- C13 (one entry per name, symbolic links included): the names of the result are pairwise distinct
+    if they were before — a link (or a file behind a followed directory link) whose stripped name is
+    already taken is an error, never a silent overwrite -/
+theorem visit_sym_nodup (cfg : Cfg) (fuel : Nat) (path : Str) (node : Node) (acc m : ArtMap)
+    (h : visit cfg fuel path node acc = .ok m) (hn : (acc.map Prod.fst).Nodup) :
+    (m.map Prod.fst).Nodup := by
+  obtain ⟨ext, _, _, h3⟩ := (specS_aux cfg fuel).1 path node acc m h
+  exact h3 hn
+
+/-- what was recorded before is kept, in place: the result extends the accumulator -/
+theorem visit_sym_prefix (cfg : Cfg) (fuel : Nat) (path : Str) (node : Node) (acc m : ArtMap)
+    (h : visit cfg fuel path node acc = .ok m) : ∃ ext, m = acc ++ ext := by
+  obtain ⟨ext, h1, _, _⟩ := (specS_aux cfg fuel).1 path node acc m h
+  exact ⟨ext, h1⟩
+
+/-- C13 (exactly the reached files): with the uniqueness check on every recorded name the result of
+    a successful walk of ANY tree is exact — an entry is in the result iff it was there before or it
+    is the entry of a reached, non-excluded file -/
+theorem visit_sym_mem (cfg : Cfg) (fuel : Nat) (path : Str) (node : Node) (acc m : ArtMap)
+    (h : visit cfg fuel path node acc = .ok m) (e : Str × List (Str × Str)) :
+    e ∈ m ↔ e ∈ acc ∨ ∃ q d hh, FileAtS cfg path node q d ∧ cfg.ignored q = false ∧
+      hashObj d cfg.algs = some hh ∧ e = (stripPath cfg.lstrip q, hh) := by
+  obtain ⟨ext, h1, h2, _⟩ := (specS_aux cfg fuel).1 path node acc m h
+  subst h1
+  rw [List.mem_append, h2]
+  rfl
+
+/-- the same for a list of root paths (any initial accumulator with pairwise distinct names) -/
+theorem recordArtifacts_sym_nodup (cfg : Cfg) (roots : List (Str × Option Node)) (acc m : ArtMap)
+    (h : recordArtifacts cfg roots acc = .ok m) (hn : (acc.map Prod.fst).Nodup) :
+    (m.map Prod.fst).Nodup := by
+  induction roots generalizing acc with
+  | nil =>
+    simp only [recordArtifacts, Outcome.ok.injEq] at h
+    subst h
+    exact hn
+  | cons r rest ih =>
+    obtain ⟨p, on⟩ := r
+    cases on with
+    | none => simp [recordArtifacts] at h
+    | some n =>
+      simp only [recordArtifacts] at h
+      split at h
+      · rename_i acc1 hv
+        exact ih acc1 h (visit_sym_nodup cfg _ p n acc acc1 hv hn)
+      · rename_i hne
+        exact absurd h (hne m)
+
+/-- C13 (one entry per name): whatever the trees look like — file links, directory links followed or
+    not — the names recorded by a successful `RecordArtifacts` are pairwise distinct -/
+theorem names_unique_with_symlinks (cfg : Cfg) (roots : List (Str × Option Node)) (r : ArtMap)
+    (h : recordArtifacts cfg roots [] = .ok r) : (r.map Prod.fst).Nodup :=
+  recordArtifacts_sym_nodup cfg roots [] r h (by simp)
+
+/-- exactly the reached files of all roots -/
+theorem recordArtifacts_sym_mem (cfg : Cfg) (roots : List (Str × Option Node)) (acc m : ArtMap)
+    (h : recordArtifacts cfg roots acc = .ok m) (e : Str × List (Str × Str)) :
+    e ∈ m ↔ e ∈ acc ∨ ∃ p n q d hh, (p, some n) ∈ roots ∧ FileAtS cfg p n q d ∧ cfg.ignored q = false ∧
+      hashObj d cfg.algs = some hh ∧ e = (stripPath cfg.lstrip q, hh) := by
+  induction roots generalizing acc with
+  | nil =>
+    simp only [recordArtifacts, Outcome.ok.injEq] at h
+    subst h
+    constructor
+    · exact Or.inl
+    · rintro (he | ⟨p, n, q, d, hh, hm, _⟩)
+      · exact he
+      · simp at hm
+  | cons r rest ih =>
+    obtain ⟨p, on⟩ := r
+    cases on with
+    | none => simp [recordArtifacts] at h
+    | some n =>
+      simp only [recordArtifacts] at h
+      split at h
+      · rename_i acc1 hv
+        rw [ih acc1 h, visit_sym_mem cfg _ p n acc acc1 hv e]
+        constructor
+        · rintro ((he | ⟨q, d, hh, hf, h1, h2, h3⟩) | ⟨p', n', q, d, hh, hm, hr⟩)
+          · exact Or.inl he
+          · exact Or.inr ⟨p, n, q, d, hh, List.mem_cons_self, hf, h1, h2, h3⟩
+          · exact Or.inr ⟨p', n', q, d, hh, List.mem_cons_of_mem _ hm, hr⟩
+        · rintro (he | ⟨p', n', q, d, hh, hm, hr⟩)
+          · exact Or.inl (Or.inl he)
+          · rcases List.mem_cons.1 hm with hm | hm
+            · cases hm
+              exact Or.inl (Or.inr ⟨q, d, hh, hr⟩)
+            · exact Or.inr ⟨p', n', q, d, hh, hm, hr⟩
+      · rename_i hne
+        exact absurd h (hne m)
+
+/-- a file link whose stripped name is already taken: the uniqueness error -/
+theorem colliding_symlink_name_is_an_error (cfg : Cfg) (fuel : Nat) (path : Str) (d : List (Str × Str))
+    (acc : ArtMap) (h v : List (Str × Str)) (hi : cfg.ignored path = false)
+    (hh : hashObj d cfg.algs = some h) (hc : lookup (stripPath cfg.lstrip path) acc = some v) :
+    visit cfg (fuel + 1) path (.symFile d) acc = .err "not-unique" :=
+  InToto.RecordProofs.symFile_collision_is_error cfg fuel path d acc h hi hh (by rw [hc]; rfl)
+
+/-- a file behind a followed directory link whose stripped name is already taken: the same error -/
+theorem mergeUnique_collision (acc sub : ArtMap) (k : Str) (hs : (lookup k sub).isSome = true)
+    (ha : (lookup k acc).isSome = true) : mergeUnique acc sub = .err "not-unique" := by
+  induction sub generalizing acc with
+  | nil => simp [lookup] at hs
+  | cons x xs ih =>
+    obtain ⟨k0, v0⟩ := x
+    simp only [mergeUnique]
+    split
+    · rfl
+    · rename_i hl
+      simp only [lookup] at hs
+      split at hs
+      · rename_i heq; subst heq; exact absurd ha hl
+      · exact ih _ hs (lookup_append_keep _ _ _ ha)
 
 /-- non-vacuity: a tree with a file link and a followed directory link -/
 example : ∃ m, recordArtifacts { algs := [lit% "sha256"], ignored := fun _ => false, lstrip := [], followDirs := true }
